@@ -298,8 +298,17 @@ RELABEL = {"C15/": "C25/wire:"}
 
 def tasks(tier):
     from contracts import dimse_frag as D
+    from pyvc.task import NativeBoundedTask
     return [CodecRoundTripTask(), EventAccessTask(), D.GenTask(), D.EncodeTask("mem"), D.EncodeTask("mem-empty"), D.EncodeTask("none"),
-            D.EncodeTask("file"), D.DecodeStepTask()]
+            D.EncodeTask("file"), D.DecodeStepTask(),
+            NativeBoundedTask("C25", "dsutils-round-trips-through-the-real-pydicom-codec-and-zlib",
+                              ["pynetdicom.dsutils:encode", "pynetdicom.dsutils:decode"])]
+
+
+bounded_results = [{"what": "replay/C25.py codec_round_trips (quick and thorough tier, native CPython): dsutils.decode(dsutils.encode(ds)) == ds "
+                    "through the real pydicom codec and zlib - the bounded check of the ASSUMED codec/zlib contracts",
+                    "bound": "4 transfer syntaxes x 4 data sets (small, odd-length values, 6 MiB of zeros, 300 KiB of noise)",
+                    "cases": 16, "counted_as_proved": False}]
 
 
 def replay(rec):
